@@ -34,8 +34,8 @@ extern int mpt_path_set(MPT_STRUCT(path) *path, const char *val, int len)
 	while (plen < vlen) {
 		char curr = val[plen++];
 		
-		/* inline assignment */
-		if (curr == assign) {
+		/* inline assignment or end of string */
+		if (curr == assign || (len < 0 && !curr)) {
 			add = 0;
 			++elem;
 			break;
